@@ -6,11 +6,11 @@ namespace Sdc.LockLts
 /-- what the observations of a thread must look like, depending on the scanner phase -/
 def PhaseOK (c : Cfg) (t : Thr) (s : Scan) : Prop :=
   match s.ph with
-  | .before => t.ref = none ∧ t.obsV = [] ∧ t.obsC = []
+  | .before => t.ref = none ∧ t.obsV = [] ∧ t.obsC = [] ∧ t.obsD = []
   | .during => 0 < s.d ∧ (∀ v ∈ t.obsV, v = c.ver) ∧ (∀ r, t.ref = some r → r = c.cur) ∧
-      (∀ x ∈ t.obsC, x = c.heap c.cur)
-  | .after => ∃ p ∈ c.hist, (∀ v ∈ t.obsV, v = p.1) ∧ (∀ r, t.ref = some r → c.heap r = p.2) ∧
-      (∀ x ∈ t.obsC, x = p.2)
+      (∀ x ∈ t.obsC, x = c.heap c.cur) ∧ (∀ d ∈ t.obsD, d = c.dsc)
+  | .after => ∃ p ∈ c.hist, (∀ v ∈ t.obsV, v = p.1) ∧ (∀ r, t.ref = some r → c.heap r = p.2.2) ∧
+      (∀ x ∈ t.obsC, x = p.2.2) ∧ (∀ d ∈ t.obsD, d = p.2.1)
   | .mixed => True
 
 structure ThrInv (c : Cfg) (j : Nat) (s fin : Scan) : Prop where
@@ -34,7 +34,7 @@ theorem good_init {c : Cfg} (h0 : Init c) (hw : ∀ j, WellLocked (c.thr j).prog
   obtain ⟨hown, hhist, hcur, hthr⟩ := h0
   refine ⟨hcur, by simp [hhist], fun j => ?_⟩
   obtain ⟨hwl, hnm⟩ := hw j
-  obtain ⟨htodo, href, hv, hc⟩ := hthr j
+  obtain ⟨htodo, href, hv, hdd, hc⟩ := hthr j
   unfold WellLocked at hwl
   cases hsc : scan scan0 (c.thr j).prog with
   | none => simp [hsc] at hwl
@@ -44,13 +44,14 @@ theorem good_init {c : Cfg} (h0 : Init c) (hw : ∀ j, WellLocked (c.thr j).prog
     · intro _ n; simp [hown 0]
     · intro h; simp [scan0] at h
     · intro r hr; simp [href] at hr
-    · simp [PhaseOK, scan0, href, hv, hc]
+    · simp [PhaseOK, scan0, href, hv, hc, hdd]
 
 /-- a thread that does not move keeps its invariant if the mover left alone what the thread depends on -/
 theorem thrInv_frame {c c' : Cfg} {j : Nat} {s fin : Scan}
     (hthr : c'.thr j = c.thr j)
     (hown : ∀ n, c'.owner 0 = some (j, n) ↔ c.owner 0 = some (j, n))
-    (hkeep : ∀ n, c.owner 0 = some (j, n) → c'.ver = c.ver ∧ c'.cur = c.cur ∧ c'.heap c.cur = c.heap c.cur)
+    (hkeep : ∀ n, c.owner 0 = some (j, n) →
+      c'.ver = c.ver ∧ c'.cur = c.cur ∧ c'.heap c.cur = c.heap c.cur ∧ c'.dsc = c.dsc)
     (hhist : ∀ p ∈ c.hist, p ∈ c'.hist)
     (hnext : c.next ≤ c'.next)
     (hheap : ∀ r, r < c.next → c'.heap r = c.heap r)
@@ -66,12 +67,13 @@ theorem thrInv_frame {c c' : Cfg} {j : Nat} {s fin : Scan}
     | before => simpa [hph] using hp
     | during =>
       simp only [hph] at hp ⊢
-      obtain ⟨hd, h1, h2, h3⟩ := hp
-      obtain ⟨e1, e2, e3⟩ := hkeep _ (h.held hd)
-      refine ⟨hd, ?_, ?_, ?_⟩
+      obtain ⟨hd, h1, h2, h3, h4⟩ := hp
+      obtain ⟨e1, e2, e3, e4⟩ := hkeep _ (h.held hd)
+      refine ⟨hd, ?_, ?_, ?_, ?_⟩
       · rw [e1]; exact h1
       · rw [e2]; exact h2
       · rw [e2, e3]; exact h3
+      · rw [e4]; exact h4
     | after =>
       simp only [hph] at hp ⊢
       obtain ⟨p, hpm, h1, h2, h3⟩ := hp
@@ -94,7 +96,7 @@ theorem good_of {c c' : Cfg} {i : Nat} (hg : Good c)
     (hoth : ∀ j, j ≠ i → c'.thr j = c.thr j)
     (hown : ∀ j, j ≠ i → ∀ n, c'.owner 0 = some (j, n) ↔ c.owner 0 = some (j, n))
     (hkeep : ∀ j, j ≠ i → ∀ n, c.owner 0 = some (j, n) →
-      c'.ver = c.ver ∧ c'.cur = c.cur ∧ c'.heap c.cur = c.heap c.cur)
+      c'.ver = c.ver ∧ c'.cur = c.cur ∧ c'.heap c.cur = c.heap c.cur ∧ c'.dsc = c.dsc)
     (hhist : ∀ p ∈ c.hist, p ∈ c'.hist) (hnext : c.next ≤ c'.next)
     (hheap : ∀ r, r < c.next → c'.heap r = c.heap r) : Good c' := by
   refine ⟨hcur, ?_, fun j => ?_⟩
@@ -124,14 +126,14 @@ theorem thrInv_mover {c c' : Cfg} {i : Nat} {s s' fin : Scan} {a : Act} {rest : 
 
 /-! ### thread-local actions: `rdV`, `rdC`, `deref` -/
 
-theorem stepScan_read {s s' : Scan} {a : Act} (ha : a = .rdV ∨ a = .rdC) (h : stepScan s a = some s') :
+theorem stepScan_read {s s' : Scan} {a : Act} (ha : a = .rdV ∨ a = .rdC ∨ a = .rdD) (h : stepScan s a = some s') :
     0 < s.d ∧ s'.d = s.d ∧
       ((s.ph = .before ∨ s.ph = .during) ∧ s'.ph = .during ∨ s.ph = .mixed ∧ s'.ph = .mixed) := by
   have hd : s.d ≠ 0 := by
     intro hd
-    rcases ha with rfl | rfl <;> simp [stepScan, hd] at h
+    rcases ha with rfl | rfl | rfl <;> simp [stepScan, hd] at h
   refine ⟨Nat.pos_of_ne_zero hd, ?_⟩
-  rcases ha with rfl | rfl <;> simp only [stepScan, hd, if_false] at h <;>
+  rcases ha with rfl | rfl | rfl <;> simp only [stepScan, hd, if_false] at h <;>
     (cases hph : s.ph <;> simp only [hph] at h <;> cases h <;> simp [hph])
 
 theorem good_rdV {c c' : Cfg} {i : Nat} {s fin : Scan} {rest : List Act} (hg : Good c) (h : ThrInv c i s fin)
@@ -143,7 +145,7 @@ theorem good_rdV {c c' : Cfg} {i : Nat} {s fin : Scan} {rest : List Act} (hg : G
   obtain ⟨s', hss, hrest⟩ := scan_cons hsc
   obtain ⟨hd, hd', hph⟩ := stepScan_read (Or.inl rfl) hss
   refine good_of (i := i) hg hg.curLt ⟨s', fin, thrInv_mover h htodo hrest (by simp) (by simp) ?_ ?_ ?_ ?_⟩
-    (fun j hj => by simp [hj]) (fun j hj n => Iff.rfl) (fun j hj n _ => ⟨rfl, rfl, rfl⟩) (fun p hp => hp)
+    (fun j hj => by simp [hj]) (fun j hj n => Iff.rfl) (fun j hj n _ => ⟨rfl, rfl, rfl, rfl⟩) (fun p hp => hp)
     (Nat.le_refl _) (fun r _ => rfl)
   · intro h0; omega
   · intro _; rw [hd']; exact h.held hd
@@ -153,14 +155,44 @@ theorem good_rdV {c c' : Cfg} {i : Nat} {s fin : Scan} {rest : List Act} (hg : G
     simp only [upd_same]
     rcases hph with ⟨hb | hb, hn⟩ | ⟨hb, hn⟩
     · simp only [hb] at hp
-      simp only [hn, hp.2.1, hp.1, hp.2.2]
-      refine ⟨by omega, by simp, by simp, by simp⟩
+      simp only [hn, hp.2.1, hp.1, hp.2.2.1, hp.2.2.2]
+      refine ⟨by omega, by simp, by simp, by simp, by simp⟩
     · simp only [hb] at hp
       simp only [hn]
       refine ⟨by omega, ?_, hp.2.2.1, hp.2.2.2⟩
       intro v hv
       rcases List.mem_append.1 hv with hv | hv
       · exact hp.2.1 v hv
+      · simpa using hv
+    · simp [hn]
+
+theorem good_rdD {c c' : Cfg} {i : Nat} {s fin : Scan} {rest : List Act} (hg : Good c) (h : ThrInv c i s fin)
+    (htodo : (c.thr i).todo = .rdD :: rest) (hs : stepAct c i .rdD rest = some c') : Good c' := by
+  simp only [stepAct] at hs
+  injection hs with hs; subst hs
+  have hsc := h.scanTodo
+  simp only [htodo] at hsc
+  obtain ⟨s', hss, hrest⟩ := scan_cons hsc
+  obtain ⟨hd, hd', hph⟩ := stepScan_read (Or.inr (Or.inr rfl)) hss
+  refine good_of (i := i) hg hg.curLt ⟨s', fin, thrInv_mover h htodo hrest (by simp) (by simp) ?_ ?_ ?_ ?_⟩
+    (fun j hj => by simp [hj]) (fun j hj n => Iff.rfl) (fun j hj n _ => ⟨rfl, rfl, rfl, rfl⟩) (fun p hp => hp)
+    (Nat.le_refl _) (fun r _ => rfl)
+  · intro h0; omega
+  · intro _; rw [hd']; exact h.held hd
+  · intro r hr; simp only [upd_same] at hr; exact h.refLt r hr
+  · have hp := h.phase
+    unfold PhaseOK at hp ⊢
+    simp only [upd_same]
+    rcases hph with ⟨hb | hb, hn⟩ | ⟨hb, hn⟩
+    · simp only [hb] at hp
+      simp only [hn, hp.2.1, hp.1, hp.2.2.1, hp.2.2.2]
+      refine ⟨by omega, by simp, by simp, by simp, by simp⟩
+    · simp only [hb] at hp
+      simp only [hn]
+      refine ⟨by omega, hp.2.1, hp.2.2.1, hp.2.2.2.1, ?_⟩
+      intro v hv
+      rcases List.mem_append.1 hv with hv | hv
+      · exact hp.2.2.2.2 v hv
       · simpa using hv
     · simp [hn]
 
@@ -171,9 +203,9 @@ theorem good_rdC {c c' : Cfg} {i : Nat} {s fin : Scan} {rest : List Act} (hg : G
   have hsc := h.scanTodo
   simp only [htodo] at hsc
   obtain ⟨s', hss, hrest⟩ := scan_cons hsc
-  obtain ⟨hd, hd', hph⟩ := stepScan_read (Or.inr rfl) hss
+  obtain ⟨hd, hd', hph⟩ := stepScan_read (Or.inr (Or.inl rfl)) hss
   refine good_of (i := i) hg hg.curLt ⟨s', fin, thrInv_mover h htodo hrest (by simp) (by simp) ?_ ?_ ?_ ?_⟩
-    (fun j hj => by simp [hj]) (fun j hj n => Iff.rfl) (fun j hj n _ => ⟨rfl, rfl, rfl⟩) (fun p hp => hp)
+    (fun j hj => by simp [hj]) (fun j hj n => Iff.rfl) (fun j hj n _ => ⟨rfl, rfl, rfl, rfl⟩) (fun p hp => hp)
     (Nat.le_refl _) (fun r _ => rfl)
   · intro h0; omega
   · intro _; rw [hd']; exact h.held hd
@@ -185,8 +217,8 @@ theorem good_rdC {c c' : Cfg} {i : Nat} {s fin : Scan} {rest : List Act} (hg : G
     simp only [upd_same]
     rcases hph with ⟨hb | hb, hn⟩ | ⟨hb, hn⟩
     · simp only [hb] at hp
-      simp only [hn, hp.2.1, hp.2.2]
-      refine ⟨by omega, by simp, by simp, by simp⟩
+      simp only [hn, hp.2.1, hp.2.2.1, hp.2.2.2]
+      refine ⟨by omega, by simp, by simp, by simp, by simp⟩
     · simp only [hb] at hp
       simp only [hn]
       refine ⟨by omega, hp.2.1, ?_, hp.2.2.2⟩
@@ -207,7 +239,7 @@ theorem good_deref {c c' : Cfg} {i : Nat} {s fin : Scan} {rest : List Act} (hg :
     have hs' : s' = s := by simp [stepScan] at hss; exact hss.symm
     subst hs'
     refine good_of (i := i) hg hg.curLt ⟨s', fin, thrInv_mover h htodo hrest (by simp) (by simp) h.free h.held ?_ ?_⟩
-      (fun j hj => by simp [hj]) (fun j hj n => Iff.rfl) (fun j hj n _ => ⟨rfl, rfl, rfl⟩) (fun p hp => hp)
+      (fun j hj => by simp [hj]) (fun j hj n => Iff.rfl) (fun j hj n _ => ⟨rfl, rfl, rfl, rfl⟩) (fun p hp => hp)
       (Nat.le_refl _) (fun r _ => rfl)
     · intro r' hr'; simp only [upd_same] at hr'; rw [← href] at hr'; exact h.refLt r' hr'
     · have hp := h.phase
@@ -218,17 +250,17 @@ theorem good_deref {c c' : Cfg} {i : Nat} {s fin : Scan} {rest : List Act} (hg :
       | before => simp [hph, href] at hp
       | during =>
         simp only [hph] at hp ⊢
-        refine ⟨hp.1, hp.2.1, hp.2.2.1, ?_⟩
+        refine ⟨hp.1, hp.2.1, hp.2.2.1, ?_, hp.2.2.2.2⟩
         intro x hx
         rcases List.mem_append.1 hx with hx | hx
-        · exact hp.2.2.2 x hx
+        · exact hp.2.2.2.1 x hx
         · have : r = c.cur := hp.2.2.1 r href
           simp only [List.mem_singleton] at hx
           rw [hx, this]
       | after =>
         simp only [hph] at hp ⊢
-        obtain ⟨p, hpm, h1, h2, h3⟩ := hp
-        refine ⟨p, hpm, h1, h2, ?_⟩
+        obtain ⟨p, hpm, h1, h2, h3, h4⟩ := hp
+        refine ⟨p, hpm, h1, h2, ?_, h4⟩
         intro x hx
         rcases List.mem_append.1 hx with hx | hx
         · exact h3 x hx
@@ -245,7 +277,7 @@ theorem good_otherLock {c : Cfg} {i l : Nat} {s fin : Scan} {a : Act} {rest : Li
     Good { c with owner := upd c.owner l v, thr := upd c.thr i { c.thr i with todo := rest } } := by
   have h0 : (0 : Nat) ≠ l := fun e => hl e.symm
   refine good_of (i := i) hg hg.curLt ⟨s, fin, thrInv_mover h htodo hrest (by simp) (by simp) ?_ ?_ ?_ ?_⟩
-    (fun j hj => by simp [hj]) (fun j hj n => by simp [upd_other _ _ _ _ h0]) (fun j hj n _ => ⟨rfl, rfl, rfl⟩)
+    (fun j hj => by simp [hj]) (fun j hj n => by simp [upd_other _ _ _ _ h0]) (fun j hj n _ => ⟨rfl, rfl, rfl, rfl⟩)
     (fun p hp => hp) (Nat.le_refl _) (fun r _ => rfl)
   · intro hd n; simp only [upd_other _ _ _ _ h0]; exact h.free hd n
   · intro hd; simp only [upd_other _ _ _ _ h0]; exact h.held hd
@@ -303,7 +335,7 @@ theorem good_acq {c c' : Cfg} {i l : Nat} {s fin : Scan} {rest : List Act} (hg :
         injection this with this; injection this with hji _
         exact hj hji
     refine good_of (i := i) hg hg.curLt ⟨_, fin, thrInv_mover h htodo hrest (by simp) (by simp) ?_ ?_ ?_ ?_⟩
-      (fun j hj => by simp [hj]) ?_ (fun j hj n _ => ⟨rfl, rfl, rfl⟩)
+      (fun j hj => by simp [hj]) ?_ (fun j hj n _ => ⟨rfl, rfl, rfl, rfl⟩)
       (fun p hp => hp) (Nat.le_refl _) (fun r _ => rfl)
     · intro hd; simp at hd
     · intro _; simp
@@ -371,7 +403,7 @@ theorem good_rel {c c' : Cfg} {i l : Nat} {s fin : Scan} {rest : List Act} (hg :
         simp only [upd_same, hd1, true_and]
         cases hph : s.ph <;> simp only [hph] at hp ⊢
         · exact hp
-        · refine ⟨(c.ver, c.heap c.cur), by simp, hp.2.1, ?_, hp.2.2.2⟩
+        · refine ⟨(c.ver, c.dsc, c.heap c.cur), by simp, hp.2.1, ?_, hp.2.2.2⟩
           intro r hr; rw [hp.2.2.1 r hr]
         · obtain ⟨p, hpm, hrest'⟩ := hp
           exact ⟨p, by simp [hpm], hrest'⟩
@@ -437,11 +469,11 @@ theorem stepScan_write {s s' : Scan} {a : Act} (ha : a.isWrite = true) (h : step
 
 /-- common part of `incV` and `wrC`: the owner changes version / installs a fresh object -/
 theorem good_write {c : Cfg} {i : Nat} {s fin : Scan} {a : Act} {rest : List Act}
-    (ver' cur' next' : Nat) (heap' : Nat → Nat)
+    (ver' dsc' cur' next' : Nat) (heap' : Nat → Nat)
     (hg : Good c) (h : ThrInv c i s fin) (ha : a.isWrite = true)
     (htodo : (c.thr i).todo = a :: rest)
     (hcur : cur' < next') (hnext : c.next ≤ next') (hheap : ∀ r, r < c.next → heap' r = c.heap r) :
-    Good { c with ver := ver', cur := cur', heap := heap', next := next',
+    Good { c with ver := ver', dsc := dsc', cur := cur', heap := heap', next := next',
                   thr := upd c.thr i { c.thr i with todo := rest } } := by
   have hsc := h.scanTodo
   simp only [htodo] at hsc
@@ -486,11 +518,16 @@ theorem good_step {c c' : Cfg} {i : Nat} (hg : Good c) (hs : stepFn c i = some c
     | incV =>
       simp only [stepAct] at hs
       injection hs with hs; subst hs
-      exact good_write (c.ver + 1) c.cur c.next c.heap hg h rfl htodo hg.curLt (Nat.le_refl _) (fun _ _ => rfl)
+      exact good_write (c.ver + 1) c.dsc c.cur c.next c.heap hg h rfl htodo hg.curLt (Nat.le_refl _) (fun _ _ => rfl)
+    | wrD x =>
+      simp only [stepAct] at hs
+      injection hs with hs; subst hs
+      exact good_write c.ver x c.cur c.next c.heap hg h rfl htodo hg.curLt (Nat.le_refl _) (fun _ _ => rfl)
+    | rdD => exact good_rdD hg h htodo hs
     | wrC x =>
       simp only [stepAct] at hs
       injection hs with hs; subst hs
-      refine good_write c.ver c.next (c.next + 1) (upd c.heap c.next x) hg h rfl htodo (by omega) (by omega) ?_
+      refine good_write c.ver c.dsc c.next (c.next + 1) (upd c.heap c.next x) hg h rfl htodo (by omega) (by omega) ?_
       intro r hr
       exact upd_other _ _ _ _ (by omega)
     | mutate x =>
@@ -503,42 +540,54 @@ theorem good_reach {c0 c : Cfg} (hg : Good c0) (hr : Reach c0 c) : Good c := by
   | step _ hs ih => exact good_step ih hs
 
 /-- a program without writes never enters phase `mixed` -/
+theorem stepScan_readOnly {a : Act} {s s' : Scan} (ha : a.isWrite = false) (hss : stepScan s a = some s')
+    (hph : s.ph ≠ .mixed) : s'.ph ≠ .mixed := by
+  cases a with
+  | acq l =>
+    simp only [stepScan] at hss
+    split at hss <;> (injection hss with hss; subst hss; exact hph)
+  | rel l =>
+    simp only [stepScan] at hss
+    split at hss
+    · split at hss
+      · cases hss
+      · injection hss with hss; subst hss
+        simp only
+        split
+        · simp
+        · exact hph
+    · injection hss with hss; subst hss; exact hph
+  | rdV =>
+    obtain ⟨_, _, h3⟩ := stepScan_read (Or.inl rfl) hss
+    rcases h3 with ⟨_, hn⟩ | ⟨hb, _⟩
+    · simp [hn]
+    · exact absurd hb hph
+  | rdC =>
+    obtain ⟨_, _, h3⟩ := stepScan_read (Or.inr (Or.inl rfl)) hss
+    rcases h3 with ⟨_, hn⟩ | ⟨hb, _⟩
+    · simp [hn]
+    · exact absurd hb hph
+  | rdD =>
+    obtain ⟨_, _, h3⟩ := stepScan_read (Or.inr (Or.inr rfl)) hss
+    rcases h3 with ⟨_, hn⟩ | ⟨hb, _⟩
+    · simp [hn]
+    · exact absurd hb hph
+  | deref =>
+    simp only [stepScan] at hss
+    injection hss with hss; subst hss; exact hph
+  | incV => simp [Act.isWrite] at ha
+  | wrD x => simp [Act.isWrite] at ha
+  | wrC x => simp [Act.isWrite] at ha
+  | mutate x => simp [Act.isWrite] at ha
+
 theorem scan_readOnly {p : List Act} {s fin : Scan} (hro : ReadOnly p) (hsc : scan s p = some fin)
     (hph : s.ph ≠ .mixed) : fin.ph ≠ .mixed := by
   induction p generalizing s with
   | nil => simp only [scan] at hsc; injection hsc with hsc; subst hsc; exact hph
   | cons a p ih =>
     obtain ⟨s', hss, hrest⟩ := scan_cons hsc
-    refine ih (fun b hb => hro b (List.mem_cons_of_mem _ hb)) hrest ?_
-    have ha : a.isWrite = false := hro a List.mem_cons_self
-    cases a <;> simp [Act.isWrite] at ha
-    · -- acq
-      simp only [stepScan] at hss
-      split at hss <;> (injection hss with hss; subst hss; exact hph)
-    · -- rel
-      simp only [stepScan] at hss
-      split at hss
-      · split at hss
-        · cases hss
-        · injection hss with hss; subst hss
-          simp only
-          split
-          · simp
-          · exact hph
-      · injection hss with hss; subst hss; exact hph
-    · -- rdV
-      obtain ⟨_, _, h3⟩ := stepScan_read (Or.inl rfl) hss
-      rcases h3 with ⟨_, hn⟩ | ⟨hb, _⟩
-      · simp [hn]
-      · exact absurd hb hph
-    · -- rdC
-      obtain ⟨_, _, h3⟩ := stepScan_read (Or.inr rfl) hss
-      rcases h3 with ⟨_, hn⟩ | ⟨hb, _⟩
-      · simp [hn]
-      · exact absurd hb hph
-    · -- deref
-      simp only [stepScan] at hss
-      injection hss with hss; subst hss; exact hph
+    exact ih (fun b hb => hro b (List.mem_cons_of_mem _ hb)) hrest
+      (stepScan_readOnly (hro a List.mem_cons_self) hss hph)
 
 /-- C07 core: a completed read-only thread holds observations of ONE published (version, content) pair -/
 theorem snapshot_of_good {c : Cfg} (hg : Good c) (i : Nat) (hro : ReadOnly (c.thr i).prog)
@@ -556,15 +605,15 @@ theorem snapshot_of_good {c : Cfg} (hg : Good c) (i : Nat) (hro : ReadOnly (c.th
     simp only [hph] at hp
     cases hh : c.hist with
     | nil => exact absurd hh hg.histNe
-    | cons p _ => exact ⟨p, by simp, by simp [Consistent, hp.2.1, hp.2.2]⟩
+    | cons p _ => exact ⟨p, by simp, by simp [Consistent, hp.2.1, hp.2.2.1, hp.2.2.2]⟩
   | during =>
     simp only [hph] at hp
     have := h.finD
     omega
   | after =>
     simp only [hph] at hp
-    obtain ⟨p, hpm, h1, _, h3⟩ := hp
-    exact ⟨p, hpm, h1, h3⟩
+    obtain ⟨p, hpm, h1, _, h3, h4⟩ := hp
+    exact ⟨p, hpm, h1, h4, h3⟩
   | mixed => exact absurd hph hnm
 
 end Sdc.LockLts
